@@ -9,6 +9,27 @@ COMMON_ASSUME = [
 ]
 
 PROPS = {
+  'C10': {
+    'rule': 'sequential stage: cases = (create n0 in {1,2,16,17,64,65,256,257,1000,1024} keys, delete by mode (none / all but last / all but a few high / random half / lower half) so that sparse trees with empty lower branches occur, optional exhaustion (1025th create), 1..4 threads with scripts of set/get on boundary-biased live keys, yields, key create/delete by threads (index reuse), out-of-range set/get; W in 1..8; schedule); non-trivial = a get was checked AND (a key >= 16 was used OR an index was reused after delete OR the thread migrated); '
+            'concurrent stage: 2..4 threads held on distinct workers by a spin gate issue generated create/delete sequences; non-trivial = two allocator operations (create/delete) of different threads overlapped in time; distinct = hash of (program, schedule, seed)',
+    'assumptions': COMMON_ASSUME + ['reads under a key index re-created since the thread stored are unspecified (as in POSIX) and not judged'],
+    'stages': [
+      {'kind': 'replays', 'name': 'replay', 'variant': 'v0'},
+      {'kind': 'pbt', 'name': 'tls-model-v0', 'variant': 'v0', 'prop': 10, 'cases': (800, 12000), 'prog_max': 260, 'sched_max': 256},
+      {'kind': 'pbt', 'name': 'key-alloc-concurrent-v0', 'variant': 'v0', 'prop': 30, 'cases': (1500, 30000), 'prog_max': 40, 'sched_max': 256},
+      {'kind': 'pbt', 'name': 'tls-model-asan', 'variant': 'va', 'prop': 10, 'cases': (200, 5000), 'prog_max': 260, 'sched_max': 256},
+    ],
+  },
+  'C11': {
+    'rule': 'cases = (key universe as in C10 with destructor assignment none / all / alternate / generated over 8 distinct destructor functions; 1..4 threads set generated non-NULL values on boundary-biased key subsets and terminate by return / myth_exit / cancel+testcancel); '
+            'non-trivial = at least one destructor call was expected AND a key >= 16 held a value; distinct = hash of (program, schedule, seed)',
+    'assumptions': COMMON_ASSUME + ['destructor calls with a NULL argument are ignored (the statement does not forbid them and a pinned test relies on one)', 'values held under a key that was deleted / re-created before the thread exits are unspecified'],
+    'stages': [
+      {'kind': 'replays', 'name': 'replay', 'variant': 'v0'},
+      {'kind': 'pbt', 'name': 'destructors-v0', 'variant': 'v0', 'prop': 11, 'cases': (1000, 15000), 'prog_max': 260, 'sched_max': 128},
+      {'kind': 'pbt', 'name': 'destructors-asan', 'variant': 'va', 'prop': 11, 'cases': (300, 6000), 'prog_max': 260, 'sched_max': 128},
+    ],
+  },
   'C02': {
     'rule': 'unit stage: cases = (queue of capacity 16 compiled from the tree, prefill 0..8 pushes + 0..8 puts so both storage boundaries are reached, 1 owner (push/pop/put/drain) + 1..3 thieves (take/trypass/peek) with <=12/24 ops each, schedule bytes + tail, x86-TSO store buffering of the top/base stores on in half of the cases); '
             'non-trivial = two operations overlapped while the queue held <= 2 elements, or the storage was re-centred; '
@@ -51,6 +72,7 @@ PROPS = {
       {'kind': 'replays', 'name': 'replay', 'variant': 'v0'},
       {'kind': 'pbt', 'name': 'ledger-v0', 'variant': 'v0', 'prop': 12, 'cases': (900, 12000), 'prog_max': 400, 'sched_max': 512},
       {'kind': 'pbt', 'name': 'ledger-v2', 'variant': 'v2', 'prop': 12, 'cases': (300, 6000), 'prog_max': 400, 'sched_max': 512},
+      {'kind': 'pbt', 'name': 'ledger-asan', 'variant': 'va', 'prop': 12, 'cases': (150, 4000), 'prog_max': 400, 'sched_max': 512},
     ],
   },
   'C13': {
@@ -61,6 +83,7 @@ PROPS = {
       {'kind': 'replays', 'name': 'replay', 'variant': 'v0'},
       {'kind': 'pbt', 'name': 'reap-v0', 'variant': 'v0', 'prop': 13, 'cases': (900, 12000), 'prog_max': 400, 'sched_max': 512},
       {'kind': 'pbt', 'name': 'reap-v2', 'variant': 'v2', 'prop': 13, 'cases': (300, 6000), 'prog_max': 400, 'sched_max': 512},
+      {'kind': 'pbt', 'name': 'reap-asan', 'variant': 'va', 'prop': 13, 'cases': (150, 4000), 'prog_max': 400, 'sched_max': 512},
     ],
   },
   'C06': {
